@@ -895,6 +895,28 @@ impl Checker {
         out: &mut Vec<Finding>,
     ) {
         let lost = std::mem::take(&mut self.model.lost_this_step);
+        // The situation of the known multi-node finding: the lost worker was the root of a
+        // multi-node task whose start had not been reported yet (tako already counts it as
+        // running). Only there may the server's crash count be one ahead.
+        let mut mn_root_unreported: BTreeSet<TaskKey> = BTreeSet::new();
+        if let Some(prev) = &self.prev_core {
+            for (w, _, _) in &lost {
+                for t in &prev.tasks {
+                    if let TaskStateSnapshot::RunningMultiNode(ws) = &t.state
+                        && ws.first().map(|x| x.as_num()) == Some(*w)
+                    {
+                        let k = tkey(t.id);
+                        let reported = self
+                            .model
+                            .task(k)
+                            .is_some_and(|mt| matches!(mt.state, MState::Running { .. }));
+                        if !reported {
+                            mn_root_unreported.insert(k);
+                        }
+                    }
+                }
+            }
+        }
         for (w, reason, running) in &lost {
             self.probes.hit(&format!("worker_lost_{reason:?}"));
             if let Some((ow, oreason)) = &obs.worker_removed
@@ -974,7 +996,7 @@ impl Checker {
                     let k = tkey(*task_id);
                     let was_running = lost.iter().any(|(_, _, r)| r.iter().any(|(t, _)| *t == k));
                     if !was_running {
-                        let mn = self.model.task(k).is_some_and(|t| t.rq.is_multi_node());
+                        let mn = mn_root_unreported.contains(&k);
                         fnd(
                             out,
                             "C07",
@@ -1005,7 +1027,7 @@ impl Checker {
                         out,
                         "C07",
                         "crash-count-differs",
-                        if mt.rq.is_multi_node() && t.crash_counter > mt.crash_count {
+                        if mn_root_unreported.contains(&k) && t.crash_counter == mt.crash_count + 1 {
                             "multi-node-root-lost-before-start-reported"
                         } else {
                             ""
